@@ -1016,6 +1016,120 @@ fn refused_by_the_stack_limit(ctx: &mut Ctx, base: &Xstate) {
     }
 }
 
+/// magics longer than any machine integer (file signatures of 17 bytes and more, not always whole bytes): the match
+/// is decided on every bit — a difference in the first bit counts like one in the last — and a mismatch moves nothing
+fn long_magic(ctx: &mut Ctx, base: &Xstate, round: usize) {
+    let mut rn = Runner::new(base);
+    let mut rc = RefCur { stash: vec![], big: false };
+    rn.intercept(true);
+    let r = &mut ctx.rng;
+    let nbits = 136 + r.below(300);
+    let body: Vec<bool> = (0..nbits).map(|_| if round % 3 == 0 { false } else { r.bool() }).collect();
+    let pre = r.below(9);
+    let post = r.below(9);
+    let input = embed(r, &body, pre, post);
+    let open_tok = format!("open-bitstr@{}", input.start());
+    rn.push(Cell::Bitstr(input));
+    let before = observe(&mut rn.xs).unwrap();
+    let case0 = format!("C06 {} open-bitstr", rn.toks.join(" "));
+    let mut obs = match rn.word("open-bitstr", open_tok) { Some((res, o)) => { oracle_step(ctx, &mut rc, "open-bitstr", &res, &before, &o, &case0); o } None => return };
+    // a few bits read first, so that the magic does not start on a byte boundary every time
+    if ctx.rng.bool() {
+        let k = ctx.rng.below(6);
+        rn.push(Cell::Int(k as i128));
+        let before = observe(&mut rn.xs).unwrap();
+        let case = format!("C06 {} bits", rn.toks.join(" "));
+        match rn.word("bits", "bits".into()) { Some((res, o)) => { oracle_step(ctx, &mut rc, "bits", &res, &before, &o, &case); obs = o; } None => return }
+    }
+    let remain = (obs.bits.len() as i128 - obs.rel()).max(0) as usize;
+    let rest: Vec<bool> = obs.bits[obs.bits.len() - remain..].to_vec();
+    if remain < 130 { return; }
+    let len = 129 + ctx.rng.below(remain - 128);
+    let mut pat = rest[..len].to_vec();
+    let flip: Option<usize> = match round % 6 {
+        0 => Some(0),
+        1 => Some(len - 129),
+        2 => Some(len - 128),
+        3 => Some(ctx.rng.below(len - 128)),
+        4 => Some(len - 1),
+        _ => None,
+    };
+    if let Some(i) = flip { pat[i] = !pat[i]; }
+    let ppre = ctx.rng.below(9);
+    let c = Cell::Bitstr(embed(&mut ctx.rng, &pat, ppre, 0));
+    rn.push(c);
+    let before = observe(&mut rn.xs).unwrap();
+    let case = format!("C06 {} magic", rn.toks.join(" "));
+    match rn.word("magic", "magic".into()) {
+        Some((res, after)) => {
+            match flip {
+                Some(i) => {
+                    let same = after.bits == before.bits && after.start == before.start && after.offset == before.offset && after.stack.len() + 1 == before.stack.len();
+                    ctx.check(res.is_err() && same, || format!("{} (a pattern of {} bits that differs from the input in bit {})", case, len, i),
+                        || format!("a mismatch: error, input and offset {} untouched, the pattern taken off the stack", before.offset), || format!("{:?} offset {} depth {}", res.as_ref().map_err(canon::err), after.offset, after.stack.len()));
+                    ctx.tag("long-magic:mismatch");
+                }
+                None => {
+                    ctx.check(res.is_ok() && after.offset == before.offset + len as i128, || format!("{} (a pattern of {} bits equal to the input)", case, len),
+                        || format!("a match: offset {}", before.offset + len as i128), || format!("{:?} offset {}", res.as_ref().map_err(canon::err), after.offset));
+                    ctx.tag("long-magic:match");
+                }
+            }
+            oracle_step(ctx, &mut rc, "magic", &res, &before, &after, &case);
+        }
+        None => { ctx.oracle_fail(case, "a result or an error value, never a panic".into(), "panic".into()); return; }
+    }
+    for w in ["remain", "u8"] {
+        let before = observe(&mut rn.xs).unwrap();
+        let case = format!("C06 {} {}", rn.toks.join(" "), w);
+        match rn.word(w, w.into()) { Some((res, after)) => oracle_step(ctx, &mut rc, w, &res, &before, &after, &case), None => return }
+    }
+    ctx.case(format!("C06 {}", rn.toks.join(" ")), rn.reports.join(" | "));
+}
+
+/// a magic of whole bytes that is itself a slice (a marker read earlier with `bits`) starting at bit k of its buffer,
+/// matched at a cursor that is at bit k of a byte too — every k, lengths of 1..3 bytes, equal and different: the
+/// comparison is of the bits, wherever the two values lie in their buffers
+fn magic_aligned_alike(ctx: &mut Ctx, base: &Xstate, k: usize, nbytes: usize, differ: bool) {
+    let mut rn = Runner::new(base);
+    let mut rc = RefCur { stash: vec![], big: false };
+    rn.intercept(true);
+    let body: Vec<bool> = (0..8 * (nbytes + 2)).map(|_| ctx.rng.bool()).collect();
+    let input = embed(&mut ctx.rng, &body, 0, 0);
+    let open_tok = format!("open-bitstr@{}", input.start());
+    rn.push(Cell::Bitstr(input));
+    let before = observe(&mut rn.xs).unwrap();
+    let case0 = format!("C06 {} open-bitstr", rn.toks.join(" "));
+    match rn.word("open-bitstr", open_tok) { Some((res, o)) => oracle_step(ctx, &mut rc, "open-bitstr", &res, &before, &o, &case0), None => return };
+    rn.push(Cell::Int(k as i128));
+    let before = observe(&mut rn.xs).unwrap();
+    let case1 = format!("C06 {} bits", rn.toks.join(" "));
+    match rn.word("bits", "bits".into()) { Some((res, o)) => oracle_step(ctx, &mut rc, "bits", &res, &before, &o, &case1), None => return };
+    let mut pat: Vec<bool> = body[k..k + 8 * nbytes].to_vec();
+    if differ { let i = ctx.rng.below(pat.len()); pat[i] = !pat[i]; }
+    // the pattern starts at bit k of its own buffer (k bits of something else before it)
+    let c = Cell::Bitstr(embed(&mut ctx.rng, &pat, k, 0));
+    rn.push(c);
+    let before = observe(&mut rn.xs).unwrap();
+    let case = format!("C06 {} magic", rn.toks.join(" "));
+    match rn.word("magic", "magic".into()) {
+        Some((res, after)) => {
+            if differ {
+                let same = after.bits == before.bits && after.offset == before.offset;
+                ctx.check(res.is_err() && same, || format!("{} (cursor and pattern both at bit {} of a byte, {} bytes, one bit differs)", case, k, nbytes), || format!("a mismatch: error, offset {} untouched", before.offset),
+                    || format!("{:?} offset {}", res.as_ref().map_err(canon::err), after.offset));
+            } else {
+                ctx.check(res.is_ok() && after.offset == before.offset + 8 * nbytes as i128, || format!("{} (cursor and pattern both at bit {} of a byte, {} bytes, equal)", case, k, nbytes), || format!("a match: offset {}", before.offset + 8 * nbytes as i128),
+                    || format!("{:?} offset {}", res.as_ref().map_err(canon::err), after.offset));
+            }
+            oracle_step(ctx, &mut rc, "magic", &res, &before, &after, &case);
+        }
+        None => { ctx.oracle_fail(case, "a result or an error value, never a panic".into(), "panic".into()); return; }
+    }
+    ctx.tag("magic:aligned-alike");
+    ctx.case(format!("C06 {}", rn.toks.join(" ")), rn.reports.join(" | "));
+}
+
 pub fn run(ctx: &mut Ctx) {
     let base = Xstate::boot().unwrap();
     for _ in 0..ctx.n {
@@ -1024,5 +1138,13 @@ pub fn run(ctx: &mut Ctx) {
     }
     for _ in 0..(ctx.n / 4).max(100) {
         refused_by_the_stack_limit(ctx, &base);
+    }
+    for round in 0..(ctx.n / 40).max(48) {
+        long_magic(ctx, &base, round);
+    }
+    for k in 0..8 {
+        for nbytes in 1..=3 {
+            for differ in [true, false] { magic_aligned_alike(ctx, &base, k, nbytes, differ); }
+        }
     }
 }
